@@ -197,6 +197,8 @@ package parser2
 
 //@ type-contract Identifiers
 //@   option params=name
+//@   requires self != nil
+//@   ensures result1 ==> result0.Name == name
 //@   assigns any []string, any *[]string
 
 //@ func (c Identifiers[V]) AddArgs
@@ -336,3 +338,29 @@ package parser2
 //@   ensures[eof-checked C03] err == nil ==> pos(lastTok(p)) == ntoks(lastTok(p))
 //@   ensures[goroutine-ended C12] cpos(lastTok(p)) == ntoks(lastTok(p))
 //@   ghost-set "Start()" lastTok(p) = tokenizer
+
+// ---------------------------------------------------------------- implicit-attribute mode (C16)
+//
+// refName(id): the name the parser puts into the Ident node it builds for an identifier: the map's name for an
+// implicit attribute, the identifier's own name otherwise. A closure must capture exactly these names.
+
+//@ predicate refName(id any) = ite(id.ThisName != "", id.ThisName, id.Name)
+
+// the lookup function returned by AddArgs: parameters of the closure shadow everything; any other non-constant
+// identifier that resolves is recorded (by the name that has to be captured) in *outersUsed
+//@ closure Identifiers.AddArgs anchor "for _, n := range names"
+//@   property C16
+//@   safety C04
+//@   requires c != nil && outersUsed != nil
+//@   ensures[name] result1 ==> result0.Name == name
+//@   ensures[param-shadows] (exists j in 0..old(len(names)) :: old(names[j]) == name) ==> result1 && result0.Name == name && result0.ThisName == "" && !result0.IsConst
+//@   ensures[outer-recorded] !(exists j in 0..old(len(names)) :: old(names[j]) == name) && result1 && !result0.IsConst ==> (exists k in 0..len(*outersUsed) :: (*outersUsed)[k] == refName(result0))
+//@   loop 1 invariant 0 <= rangeidx && rangeidx <= len(names) && (forall j in 0..rangeidx :: names[j] != name)
+//@   loop 2 invariant 0 <= rangeidx && (forall j in 0..rangeidx :: j < len(*outersUsed) ==> (*outersUsed)[j] != outerName)
+
+// AddMap: constants shadow attributes, every other name resolves to an attribute of the map
+//@ closure Identifiers.AddMap anchor "ThisName: this"
+//@   property C16
+//@   safety C04
+//@   ensures[resolves] result1 && result0.Name == name
+//@   ensures[attribute] !result0.IsConst ==> result0.Name == name && result0.ThisName == this
